@@ -36,6 +36,10 @@ theorem len64 (v : Int) : (ofIntBE 8 v).length = 8 := ofIntBE_length 8 v
 
 theorem cur0 : (0 : Int) = (([] : Bytes).length : Int) := rfl
 
+/-- `seq_valid` for an explicit pair (keeps the component types free of projections) -/
+theorem seq_valid' {α β : Type} {a : Codec α} {b : Codec β} {x : α} {y : β} (h : (a ⊗ b).valid (x, y) = true) :
+    a.valid x = true ∧ b.valid y = true := seq_valid h
+
 /-! ## reading at a cursor -/
 
 theorem ru1_i_at {data pre rest : Bytes} {v : Int} (hd : data = pre ++ ofIntBE 4 v ++ rest) (hv : IntFits 4 v) :
@@ -147,50 +151,146 @@ theorem ris_nullable_at {data pre rest : Bytes} {b : Option Bytes} (hd : data = 
 
 /-! ## loops with the cursor in `↑(pre ++ …).length` form -/
 
-theorem repeatR_at {α β : Type} (c : Codec α) (f : α → β) {data : Bytes} (body : Int → R (β × Int))
-    (hbody : ∀ (pre rest : Bytes) (a : α), c.valid a = true → data = pre ++ c.enc a ++ rest →
+theorem repeatR_at {α β : Type} (c : Codec α) (P : α → Prop) (f : α → β) {data : Bytes} (body : Int → R (β × Int))
+    (hbody : ∀ (pre rest : Bytes) (a : α), P a → data = pre ++ c.enc a ++ rest →
       body pre.length = .ok (f a, ((pre ++ c.enc a).length : Int)))
-    {l : List α} {pre rest : Bytes} (hv : ∀ a ∈ l, c.valid a = true) (hd : data = pre ++ encAll c l ++ rest) :
+    {l : List α} {pre rest : Bytes} (hv : ∀ a ∈ l, P a) (hd : data = pre ++ encAll c l ++ rest) :
     repeatR body l.length pre.length = .ok (l.map f, ((pre ++ encAll c l).length : Int)) := by
   rw [natCast_add_length]
-  apply repeatR_encAll c f data body _ l pre rest hv hd
+  apply repeatR_encAll c P f data body _ l pre rest hv hd
   intro pre rest a ha hd
   rw [hbody pre rest a ha hd, natCast_add_length]
 
-theorem repeatG_at {α β : Type} (c : Codec α) (f : α → List β) {data : Bytes} (body : Int → G β)
-    (hbody : ∀ (pre rest : Bytes) (a : α), c.valid a = true → data = pre ++ c.enc a ++ rest →
+theorem repeatG_at {α β : Type} (c : Codec α) (P : α → Prop) (f : α → List β) {data : Bytes} (body : Int → G β)
+    (hbody : ∀ (pre rest : Bytes) (a : α), P a → data = pre ++ c.enc a ++ rest →
       body pre.length = (f a, .ok ((pre ++ c.enc a).length : Int)))
-    {l : List α} {pre rest : Bytes} (hv : ∀ a ∈ l, c.valid a = true) (hd : data = pre ++ encAll c l ++ rest) :
+    {l : List α} {pre rest : Bytes} (hv : ∀ a ∈ l, P a) (hd : data = pre ++ encAll c l ++ rest) :
     repeatG body l.length pre.length = (l.flatMap f, .ok ((pre ++ encAll c l).length : Int)) := by
   rw [natCast_add_length]
-  apply repeatG_encAll c f data body _ l pre rest hv hd
+  apply repeatG_encAll c P f data body _ l pre rest hv hd
   intro pre rest a ha hd
   rw [hbody pre rest a ha hd, natCast_add_length]
 
-/-! ## straight-line decoders -/
+/-! ## the first read, at cursor `0` -/
+
+theorem ru1_i_at0 {data rest : Bytes} {v : Int} (hd : data = ofIntBE 4 v ++ rest) (hv : IntFits 4 v) :
+    ru1 ['>', 'i'] data 0 = .ok (v, ((ofIntBE 4 v).length : Int)) := by
+  have := ru1_i_at (data := data) (pre := []) (rest := rest) (v := v) (by rw [hd]; rfl) hv
+  simpa using this
+
+theorem ru2_ih_at0 {data rest : Bytes} {a b : Int} (hd : data = (ofIntBE 4 a ++ ofIntBE 2 b) ++ rest)
+    (ha : IntFits 4 a) (hb : IntFits 2 b) :
+    ru2 ['>', 'i', 'h'] data 0 = .ok (a, b, ((ofIntBE 4 a ++ ofIntBE 2 b).length : Int)) := by
+  have := ru2_ih_at (data := data) (pre := []) (rest := rest) (a := a) (b := b) (by rw [hd]; rfl) ha hb
+  simpa using this
+
+theorem ru2_ii_at0 {data rest : Bytes} {a b : Int} (hd : data = (ofIntBE 4 a ++ ofIntBE 4 b) ++ rest)
+    (ha : IntFits 4 a) (hb : IntFits 4 b) :
+    ru2 ['>', 'i', 'i'] data 0 = .ok (a, b, ((ofIntBE 4 a ++ ofIntBE 4 b).length : Int)) := by
+  have := ru2_ii_at (data := data) (pre := []) (rest := rest) (a := a) (b := b) (by rw [hd]; rfl) ha hb
+  simpa using this
+
+theorem ru2_hi_at0 {data rest : Bytes} {a b : Int} (hd : data = (ofIntBE 2 a ++ ofIntBE 4 b) ++ rest)
+    (ha : IntFits 2 a) (hb : IntFits 4 b) :
+    ru2 ['>', 'h', 'i'] data 0 = .ok (a, b, ((ofIntBE 2 a ++ ofIntBE 4 b).length : Int)) := by
+  have := ru2_hi_at (data := data) (pre := []) (rest := rest) (a := a) (b := b) (by rw [hd]; rfl) ha hb
+  simpa using this
+
+theorem ru3_ihi_at0 {data rest : Bytes} {a b c : Int}
+    (hd : data = (ofIntBE 4 a ++ (ofIntBE 2 b ++ ofIntBE 4 c)) ++ rest)
+    (ha : IntFits 4 a) (hb : IntFits 2 b) (hc : IntFits 4 c) :
+    ru3 ['>', 'i', 'h', 'i'] data 0 = .ok (a, b, c, ((ofIntBE 4 a ++ (ofIntBE 2 b ++ ofIntBE 4 c)).length : Int)) := by
+  have := ru3_ihi_at (data := data) (pre := []) (rest := rest) (a := a) (b := b) (c := c) (by rw [hd]; rfl) ha hb hc
+  simpa using this
+
+/-! ## what each decoder returns, given what its primitive reads return (cursors abstract) -/
+
+theorem errorOnly_steps {fmt : List Char} {data : Bytes} {corr err cur1 : Int}
+    (h1 : ru2 fmt data 0 = .ok (corr, err, cur1)) : decodeErrorOnlyResponse fmt data = .ok err := by
+  unfold decodeErrorOnlyResponse; rw [h1]
+
+theorem syncGroup_steps {data : Bytes} {corr err cur1 cur2 : Int} {b : Option Bytes}
+    (h1 : ru2 ['>', 'i', 'h'] data 0 = .ok (corr, err, cur1)) (h2 : readIntString data cur1 = .ok (b, cur2)) :
+    decodeSyncGroupResponse data = .ok (err, b) := by
+  unfold decodeSyncGroupResponse
+  simp only [fmt_decode_sync_group_response_0]
+  rw [h1]; simp only; rw [h2]
+
+theorem findCoordinator_steps {data : Bytes} {corr err node port cur1 cur2 cur3 : Int} {host : Bytes}
+    (h1 : ru3 ['>', 'i', 'h', 'i'] data 0 = .ok (corr, err, node, cur1))
+    (h2 : readShortAscii data cur1 = .ok (host, cur2)) (h3 : ru1 ['>', 'i'] data cur2 = .ok (port, cur3)) :
+    decodeConsumerMetadataResponse data = .ok ⟨err, node, host, port⟩ := by
+  unfold decodeConsumerMetadataResponse
+  simp only [fmt_decode_consumermetadata_response_0, fmt_decode_consumermetadata_response_1]
+  rw [h1]; simp only; rw [h2]; simp only; rw [h3]
+
+theorem correlationId_steps {data : Bytes} {corr cur1 : Int} (h1 : ru1 ['>', 'i'] data 0 = .ok (corr, cur1)) :
+    getResponseCorrelationId data = .ok corr := by
+  unfold getResponseCorrelationId
+  simp only [fmt_get_response_correlation_id_0]
+  rw [h1]
+
+theorem apiVersionEntry_steps {data : Bytes} {k lo hi cur cur1 : Int}
+    (h1 : ru3 ['>', 'h', 'h', 'h'] data cur = .ok (k, lo, hi, cur1)) :
+    apiVersionEntry data cur = .ok (⟨k, lo, hi⟩, cur1) := by
+  unfold apiVersionEntry
+  simp only [fmt_decode_api_versions_response_1]
+  rw [h1]
+
+theorem apiVersions_steps {data : Bytes} {corr err n cur1 cur2 : Int} {vs : List ApiVersion}
+    (h1 : ru3 ['>', 'i', 'h', 'i'] data 0 = .ok (corr, err, n, cur1))
+    (h2 : repeatR (apiVersionEntry data) n.toNat cur1 = .ok (vs, cur2)) :
+    decodeApiVersionsResponse data = .ok (err, vs) := by
+  unfold decodeApiVersionsResponse
+  simp only [fmt_decode_api_versions_response_0]
+  rw [h1]; simp only; rw [h2]
+
+theorem subscription_steps {data : Bytes} {ver n cur1 cur2 cur3 : Int} {subs : List Bytes} {ud : Option Bytes}
+    (h1 : ru2 ['>', 'h', 'i'] data 0 = .ok (ver, n, cur1))
+    (h2 : repeatR (readShortText data) n.toNat cur1 = .ok (subs, cur2))
+    (h3 : readIntString data cur2 = .ok (ud, cur3)) :
+    decodeJoinGroupProtocolMetadata data = .ok ⟨ver, subs, ud⟩ := by
+  unfold decodeJoinGroupProtocolMetadata
+  simp only [fmt_decode_join_group_protocol_metadata_0]
+  rw [h1]; simp only; rw [h2]; simp only; rw [h3]
+
+theorem joinGroupMember_steps {data : Bytes} {cur cur1 cur2 : Int} {mid : Bytes} {md : Option Bytes}
+    (h1 : readShortText data cur = .ok (mid, cur1)) (h2 : readIntString data cur1 = .ok (md, cur2)) :
+    joinGroupMember data cur = .ok ((mid, md), cur2) := by
+  unfold joinGroupMember
+  rw [h1]; simp only; rw [h2]
+
+theorem joinGroup_steps {data : Bytes} {corr err gen n c1 c2 c3 c4 c5 c6 : Int} {proto leader member : Bytes}
+    {members : List (Bytes × Option Bytes)}
+    (h1 : ru3 ['>', 'i', 'h', 'i'] data 0 = .ok (corr, err, gen, c1))
+    (h2 : readShortText data c1 = .ok (proto, c2)) (h3 : readShortText data c2 = .ok (leader, c3))
+    (h4 : readShortText data c3 = .ok (member, c4)) (h5 : ru1 ['>', 'i'] data c4 = .ok (n, c5))
+    (h6 : repeatR (joinGroupMember data) n.toNat c5 = .ok (members, c6)) :
+    decodeJoinGroupResponse data = .ok ⟨err, gen, proto, leader, member, members⟩ := by
+  unfold decodeJoinGroupResponse
+  simp only [fmt_decode_join_group_response_0, fmt_decode_join_group_response_1]
+  rw [h1]; simp only; rw [h2]; simp only; rw [h3]; simp only; rw [h4]; simp only; rw [h5]; simp only; rw [h6]
+
+/-! ## instantiation on the grammar's encoding -/
 
 /-- Heartbeat / LeaveGroup responses -/
 theorem errorOnly_roundtrip (v : Spec.ErrorOnlyResp) (hv : Spec.errorOnlyResponse.valid v = true) :
     decodeErrorOnlyResponse ['>', 'i', 'h'] (Spec.errorOnlyResponse.enc v) = .ok v.2 := by
   obtain ⟨corr, err⟩ := v
-  have h := seq_valid hv
+  have h := seq_valid' hv
   have henc : Spec.errorOnlyResponse.enc (corr, err) = ofIntBE 4 corr ++ ofIntBE 2 err := rfl
-  have h1 := ru2_ih_at (data := Spec.errorOnlyResponse.enc (corr, err)) (pre := []) (rest := [])
-    (by rw [henc]; simp) (v32 h.1) (v16 h.2)
-  simp only [decodeErrorOnlyResponse, cur0, h1]
+  exact errorOnly_steps (ru2_ih_at0 (rest := []) (by rw [henc]; simp) (v32 h.1) (v16 h.2))
 
 /-- SyncGroup response -/
 theorem syncGroup_roundtrip (v : Spec.SyncGroupResp) (hv : Spec.syncGroupResponse.valid v = true) :
     decodeSyncGroupResponse (Spec.syncGroupResponse.enc v) = .ok (v.2.1, some v.2.2) := by
   obtain ⟨corr, err, b⟩ := v
-  have h := seq_valid hv
-  have h' := seq_valid h.2
+  have h := seq_valid' hv
+  have h' := seq_valid' h.2
   have henc : Spec.syncGroupResponse.enc (corr, err, b) = ofIntBE 4 corr ++ (ofIntBE 2 err ++ Codec.bytes.enc b) := rfl
-  have h1 := ru2_ih_at (data := Spec.syncGroupResponse.enc (corr, err, b)) (pre := []) (rest := Codec.bytes.enc b)
-    (by rw [henc]; simp) (v32 h.1) (v16 h'.1)
-  have h2 := ris_bytes_at (data := Spec.syncGroupResponse.enc (corr, err, b)) (pre := [] ++ (ofIntBE 4 corr ++ ofIntBE 2 err))
-    (rest := []) (b := b) (by rw [henc]; simp) h'.2
-  simp only [decodeSyncGroupResponse, fmt_decode_sync_group_response_0, cur0, h1, h2]
+  exact syncGroup_steps
+    (ru2_ih_at0 (rest := Codec.bytes.enc b) (by rw [henc]; simp) (v32 h.1) (v16 h'.1))
+    (ris_bytes_at (pre := ofIntBE 4 corr ++ ofIntBE 2 err) (rest := []) (b := b) (by rw [henc]; simp) h'.2)
 
 /-- FindCoordinator response -/
 theorem findCoordinator_roundtrip (v : Spec.FindCoordinatorResp) (e : ConsumerMetadataResp)
@@ -202,32 +302,24 @@ theorem findCoordinator_roundtrip (v : Spec.FindCoordinatorResp) (e : ConsumerMe
   · rename_i hc
     cases he
     have hc := Bool.and_eq_true_iff.mp hc
-    have h1v := seq_valid hc.1
-    have h2v := seq_valid h1v.2
-    have h3v := seq_valid h2v.2
-    have h4v := seq_valid h3v.2
+    have h1v := seq_valid' hc.1
+    have h2v := seq_valid' h1v.2
+    have h3v := seq_valid' h2v.2
+    have h4v := seq_valid' h3v.2
     have henc : Spec.findCoordinatorResponse.enc (corr, err, node, host, port) =
         ofIntBE 4 corr ++ (ofIntBE 2 err ++ (ofIntBE 4 node ++ (Codec.string.enc host ++ ofIntBE 4 port))) := rfl
-    have s1 := ru3_ihi_at (data := Spec.findCoordinatorResponse.enc (corr, err, node, host, port)) (pre := [])
-      (rest := Codec.string.enc host ++ ofIntBE 4 port) (by rw [henc]; simp) (v32 h1v.1) (v16 h2v.1) (v32 h3v.1)
-    have s2 := rsa_at (data := Spec.findCoordinatorResponse.enc (corr, err, node, host, port))
-      (pre := [] ++ (ofIntBE 4 corr ++ (ofIntBE 2 err ++ ofIntBE 4 node))) (rest := ofIntBE 4 port) (b := host)
-      (by rw [henc]; simp) h4v.1 hc.2
-    have s3 := ru1_i_at (data := Spec.findCoordinatorResponse.enc (corr, err, node, host, port))
-      (pre := [] ++ (ofIntBE 4 corr ++ (ofIntBE 2 err ++ ofIntBE 4 node)) ++ Codec.string.enc host) (rest := []) (v := port)
-      (by rw [henc]; simp) (v32 h4v.2)
-    simp only [decodeConsumerMetadataResponse, fmt_decode_consumermetadata_response_0,
-      fmt_decode_consumermetadata_response_1, cur0, s1, s2, s3]
+    exact findCoordinator_steps
+      (ru3_ihi_at0 (rest := Codec.string.enc host ++ ofIntBE 4 port) (by rw [henc]; simp) (v32 h1v.1) (v16 h2v.1) (v32 h3v.1))
+      (rsa_at (pre := ofIntBE 4 corr ++ (ofIntBE 2 err ++ ofIntBE 4 node)) (rest := ofIntBE 4 port) (b := host)
+        (by rw [henc]; simp) h4v.1 hc.2)
+      (ru1_i_at (pre := ofIntBE 4 corr ++ (ofIntBE 2 err ++ ofIntBE 4 node) ++ Codec.string.enc host) (rest := []) (v := port)
+        (by rw [henc]; simp) (v32 h4v.2))
   · cases he
 
 /-- the correlation id every response starts with -/
 theorem correlationId_roundtrip (corr : Int) (rest : Bytes) (hv : int32.valid corr = true) :
-    getResponseCorrelationId (int32.enc corr ++ rest) = .ok corr := by
-  have s1 := ru1_i_at (data := int32.enc corr ++ rest) (pre := []) (rest := rest) (v := corr)
-    (by rw [enc32]; simp) (v32 hv)
-  simp only [getResponseCorrelationId, fmt_get_response_correlation_id_0, cur0, s1]
-
-/-! ## decoders with arrays -/
+    getResponseCorrelationId (int32.enc corr ++ rest) = .ok corr :=
+  correlationId_steps (ru1_i_at0 (rest := rest) (v := corr) (by rw [enc32]) (v32 hv))
 
 /-- ApiVersions response (finding F3, repaired: the error code is the int16 it is) -/
 theorem apiVersions_roundtrip (v : Spec.ApiVersionsResp) (e : Int × List ApiVersion)
@@ -238,30 +330,58 @@ theorem apiVersions_roundtrip (v : Spec.ApiVersionsResp) (e : Int × List ApiVer
   split at he
   · rename_i hc
     cases he
-    have h1v := seq_valid hc
-    have h2v := seq_valid h1v.2
+    have h1v := seq_valid' hc
+    have h2v := seq_valid' h1v.2
     have ha := array_valid h2v.2
     have henc : Spec.apiVersionsResponse.enc (corr, err, vs) =
         ofIntBE 4 corr ++ (ofIntBE 2 err ++ (ofIntBE 4 (vs.length : Int) ++ encAll (int16 ⊗ int16 ⊗ int16) vs)) := rfl
-    have s1 := ru3_ihi_at (data := Spec.apiVersionsResponse.enc (corr, err, vs)) (pre := [])
-      (rest := encAll (int16 ⊗ int16 ⊗ int16) vs) (by rw [henc]; simp) (v32 h1v.1) (v16 h2v.1) ha.1
-    have s2 := repeatR_at (int16 ⊗ int16 ⊗ int16) (fun (x : Int × Int × Int) => (⟨x.1, x.2.1, x.2.2⟩ : ApiVersion))
-      (data := Spec.apiVersionsResponse.enc (corr, err, vs))
-      (fun cur => match ru3 fmt_decode_api_versions_response_1 (Spec.apiVersionsResponse.enc (corr, err, vs)) cur with
-        | .error e => .error e
-        | .ok (k, lo, hi, cur) => .ok ((⟨k, lo, hi⟩ : ApiVersion), cur))
+    have hl := repeatR_at (int16 ⊗ int16 ⊗ int16) (fun a => (int16 ⊗ int16 ⊗ int16).valid a = true)
+      (fun (x : Int × Int × Int) => (⟨x.1, x.2.1, x.2.2⟩ : ApiVersion))
+      (data := Spec.apiVersionsResponse.enc (corr, err, vs)) (apiVersionEntry (Spec.apiVersionsResponse.enc (corr, err, vs)))
       (by
         intro pre rest a hav hd
         obtain ⟨k, lo, hi⟩ := a
-        have q1 := seq_valid hav
-        have q2 := seq_valid q1.2
-        have := ru3_hhh_at (data := Spec.apiVersionsResponse.enc (corr, err, vs)) (pre := pre) (rest := rest)
-          (a := k) (b := lo) (c := hi) (by rw [hd]; rfl) (v16 q1.1) (v16 q2.1) (v16 q2.2)
-        simp only [fmt_decode_api_versions_response_1, this]
-        rfl)
-      (l := vs) (pre := [] ++ (ofIntBE 4 corr ++ (ofIntBE 2 err ++ ofIntBE 4 (vs.length : Int)))) (rest := [])
+        have q1 := seq_valid' hav
+        have q2 := seq_valid' q1.2
+        exact apiVersionEntry_steps
+          (ru3_hhh_at (pre := pre) (rest := rest) (a := k) (b := lo) (c := hi) (by rw [hd]; rfl) (v16 q1.1) (v16 q2.1) (v16 q2.2)))
+      (l := vs) (pre := ofIntBE 4 corr ++ (ofIntBE 2 err ++ ofIntBE 4 (vs.length : Int))) (rest := [])
       ha.2 (by rw [henc]; simp)
-    simp only [decodeApiVersionsResponse, fmt_decode_api_versions_response_0, cur0, s1, Int.toNat_natCast, s2]
+    exact apiVersions_steps
+      (ru3_ihi_at0 (rest := encAll (int16 ⊗ int16 ⊗ int16) vs) (by rw [henc]; simp) (v32 h1v.1) (v16 h2v.1) ha.1)
+      (by rw [Int.toNat_natCast]; exact hl)
+  · cases he
+
+/-- the subscription inside JoinGroup (`decode_join_group_protocol_metadata`) -/
+theorem subscription_roundtrip (v : Spec.Subscription) (e : JoinGroupProtocolMetadata)
+    (he : expectedSubscription v = some e) :
+    decodeJoinGroupProtocolMetadata (Spec.subscription.enc v) = .ok e := by
+  obtain ⟨ver, subs, ud⟩ := v
+  simp only [expectedSubscription] at he
+  split at he
+  · rename_i hc
+    cases he
+    have hc := Bool.and_eq_true_iff.mp hc
+    have h1v := seq_valid' hc.1
+    have h2v := seq_valid' h1v.2
+    have ha := array_valid h2v.1
+    have htext : ∀ s ∈ subs, validUtf8 s = true := List.all_eq_true.mp hc.2
+    have henc : Spec.subscription.enc (ver, subs, ud) =
+        ofIntBE 2 ver ++ ((ofIntBE 4 (subs.length : Int) ++ encAll Codec.string subs) ++ Codec.nullableBytes.enc ud) := rfl
+    have hl := repeatR_at Codec.string (fun a => Codec.string.valid a = true ∧ validUtf8 a = true) (fun (x : Bytes) => x)
+      (data := Spec.subscription.enc (ver, subs, ud)) (readShortText (Spec.subscription.enc (ver, subs, ud)))
+      (by
+        intro pre rest a hav hd
+        exact rst_at (pre := pre) (rest := rest) (b := a) hd hav.1 hav.2)
+      (l := subs) (pre := ofIntBE 2 ver ++ ofIntBE 4 (subs.length : Int)) (rest := Codec.nullableBytes.enc ud)
+      (by intro a ha'; exact ⟨ha.2 a ha', htext a ha'⟩)
+      (by rw [henc]; simp only [List.append_assoc])
+    rw [List.map_id'] at hl
+    exact subscription_steps
+      (ru2_hi_at0 (rest := encAll Codec.string subs ++ Codec.nullableBytes.enc ud) (by rw [henc]; simp) (v16 h1v.1) ha.1)
+      (by rw [Int.toNat_natCast]; exact hl)
+      (ris_nullable_at (pre := ofIntBE 2 ver ++ ofIntBE 4 (subs.length : Int) ++ encAll Codec.string subs) (rest := [])
+        (by rw [henc]; simp) h2v.2)
   · cases he
 
 end Afkak.Wire
